@@ -63,6 +63,9 @@ UNITS = [
     '123,', '1,', '12.', '123 ', '0.', '9',
     # wide ranges, chained or listed (each expands to hundreds of numbers)
     '1-999-', '1-999, ', '-999', ' 1 - 500,', '1 thru 900 and ',
+    # connecting words without a trailing blank (between a section and a
+    # Twp/Rge: 'Section 4, all in T154N-R97W')
+    ' in', ' of', ' all of', ' in,',
 ]
 PREFIXES = ['', 'T154N-R97W ', 'T154N-R97W Sec 14', 'T154N-R97W Sec 14: ',
             'T154N-R97W Sec 14: Lot 1', 'T154N-R97W Sec 14: N/2', 'Sec 14',
@@ -72,10 +75,11 @@ PREFIXES = ['', 'T154N-R97W ', 'T154N-R97W Sec 14', 'T154N-R97W Sec 14: ',
             'Township 154 ', 'T154 ', 'T154-R97 ', 'Sec 14: NE/4, Township 154',
             'Township 154 North, Range ',
             'T154N-R97W Sec 14: Lot 1 (', 'T154N-R97W Sec 14: Lot 1 [3',
-            'T154N-R97W Sec 14: Lots ']
+            'T154N-R97W Sec 14: Lots ', 'T154N-R97W Sec 14: Lots 1 - 2']
 SUFFIXES = ['', ' Sec 15: W/2', 'X', ' T154N-R97W', '1', ' P.M.', ' NE/4',
-            '-A) NE/4']
+            '-A) NE/4', ' the T154N-R97W']
 TRACT_PREFIXES = ['', 'NE/4', 'N/2 of', 'Lot 1', 'Lots 1 - 3,', 'N½NE¼', 'Lots ',
+                  'Lots 1 - 2',
                   'Northeast Quarter', 'NE', 'ALL', 'Lot 1 (', 'Lot 1 [3']
 TRACT_SUFFIXES = ['', 'x', ' NE/4', ' Lot 2', '1', ' of the SW/4', '-A)']
 LADDER = (62, 125, 250)
